@@ -35,6 +35,22 @@ pub fn run(path: &str) -> i32 {
             println!("{}", if same { "REPRODUCED (same observation as recorded)" } else { "DIFFERENT observation from the recorded one" });
             if same { 1 } else { 0 }
         }
+        "hex" => crate::checks::c07::replay(&v),
+        "file_tree" => crate::checks::c11::replay(&v),
+        "build_file" => {
+            let src = v["source"].as_str().unwrap_or("");
+            let o = sut::build_file(std::path::PathBuf::from(src), Default::default());
+            println!("build_file({})", src);
+            println!("recorded : {}", v["observed"]);
+            println!("now      : {}", o.to_json());
+            if o.is_panic() { 1 } else { 0 }
+        }
+        "history" => crate::checks::c17::replay(&v),
+        "cli" => {
+            println!("the recorded case (re-run the check to re-execute it under the scheduler / with the rebuilt binary):");
+            println!("{}", serde_json::to_string_pretty(&v).unwrap_or_default());
+            2
+        }
         other => {
             println!("replay of kind '{}' is handled by re-running the check; case: {}", other, v);
             2
